@@ -392,6 +392,11 @@ type PoolAllocator struct {
 	store     AllocationStore
 	poolID    string
 	poolType  PoolType
+
+	// mu makes allocate+persist (and release+remove) one step: without it a
+	// caller whose save fails can roll back an allocation that a concurrent
+	// caller for the same subscriber has just been given
+	mu sync.Mutex
 }
 
 // PoolAllocatorConfig contains configuration for creating a PoolAllocator
@@ -470,6 +475,9 @@ type AllocateOptions struct {
 
 // AllocateWithOptions allocates a prefix with additional options for DHCPv6.
 func (p *PoolAllocator) AllocateWithOptions(ctx context.Context, opts AllocateOptions) (*net.IPNet, error) {
+	p.mu.Lock()
+	defer p.mu.Unlock()
+
 	// A subscriber that already holds an allocation gets the same prefix back;
 	// if re-saving it fails, that allocation must not be rolled back.
 	existed := p.allocator.Lookup(opts.SubscriberID) != nil
@@ -504,6 +512,9 @@ func (p *PoolAllocator) AllocateWithOptions(ctx context.Context, opts AllocateOp
 
 // Release releases a subscriber's allocation and removes from store.
 func (p *PoolAllocator) Release(ctx context.Context, subscriberID string) error {
+	p.mu.Lock()
+	defer p.mu.Unlock()
+
 	// Remove the store record first: if that fails the allocation must stay in
 	// memory too, or memory and store disagree about who holds the prefix.
 	if p.allocator.Lookup(subscriberID) != nil {
